@@ -31,7 +31,25 @@ func Program(t *rapid.T, related bool) (string, []string) {
 		}
 		e := g.Natural(S, rapid.IntRange(0, 2).Draw(t, label+"exprdepth"))
 		s := m.RenderExpr(e, lay)
-		switch rapid.IntRange(0, 9).Draw(t, label+"wrap") {
+		switch rapid.IntRange(0, 11).Draw(t, label+"wrap") {
+		case 10, 11:
+			// a concatenation / repetition / slice of literals, one of which holds a composite variable
+			var cands []*gen.VarInfo
+			for _, v := range g.Visible() {
+				if v.Ty.Composite() {
+					cands = append(cands, v)
+				}
+			}
+			if len(cands) > 0 {
+				v := cands[rapid.IntRange(0, len(cands)-1).Draw(t, label+"cvar")]
+				l := "[" + m.RenderExpr(g.Literal(v.Ty, 1), lay) + "]"
+				form := rapid.IntRange(0, 4).Draw(t, label+"cform")
+				s = []string{l + " + [" + v.Name + "]", "[" + v.Name + "] + " + l, "[" + v.Name + "] * 2", "(" + l + " + [" + v.Name + "])[:]", "[" + l + " [" + v.Name + "]]"}[form]
+				S = m.ArrOf(v.Ty)
+				if form == 4 {
+					S = m.ArrOf(S)
+				}
+			}
 		case 0:
 			s = "[" + s + "][0]"
 		case 1:
